@@ -335,7 +335,16 @@ class Connection(object):
                 raise
             self._send(consts.MSG_EXCEPTION, seq, self._box_exc(t, v, tb))
         else:
-            self._send(consts.MSG_REPLY, seq, self._box(res))
+            try:
+                self._send(consts.MSG_REPLY, seq, self._box(res))
+            except EOFError:
+                raise
+            except Exception:
+                # the result could not be encoded (nothing was queued yet):
+                # answer with the error instead of tearing the connection down
+                t, v, tb = sys.exc_info()
+                self._last_traceback = tb
+                self._send(consts.MSG_EXCEPTION, seq, self._box_exc(t, v, tb))
 
     def _box_exc(self, typ, val, tb):  # dispatch?
         return vinegar.dump(typ, val, tb,
